@@ -113,6 +113,15 @@ claim("C17", T + "gate facts on the selection site of GetNewCandidates, constant
       "That the comparator orders by stake, proportionality and all arithmetic are NOT decided. Decides that validators are drawn only from the ordered candidate list, online and with at least BipToPip(1000) of stake, cut to at most 64, that the same list reaches the state and Tendermint with power floored at 1 and power-0 updates for dropped validators, that a current validator is never deleted, that exactly the candidates ranked beyond 100 are deleted with every stake and pending update frozen at full value for the unbond period, and that at a full candidate the incoming stake loses only to a strictly greater smallest stake, the loser going to the waitlist with its own owner, full value and coin.",
       TRUST, "DESIGN.md §4 C17")
 
+
+claim("C19", T + "gate facts on the accrual and dropped-validator sites of EndBlock, pairing of every reward credit with its supply-checker report in all four PayRewards versions, zeroing and remainder-guard rules, recipient/rate constants, provenance of the extra reward into emission and volume, carry rule on the validator-set rebuild",
+      "Proportionality of the split and all reward arithmetic are NOT decided. Decides that rewards accrue only to validators that are present and not marked to drop, with each accrued share subtracted from the remainder that goes to total slashed; that a dropped validator's accumulated reward returns to the pool and is zeroed; that every payout credit is reported with the same value, DAO and developers get their shares at the 10 % constants, the accumulator is zeroed and a negative remainder (over-payment) fail-stops; that the locked-stake bonus is added to both emission and volume; and the carry rule (known finding: accrued rewards lost on a public-key change).",
+      TRUST, "DESIGN.md §4 C19")
+
+claim("C28", T + "constant evaluation of the emission cap, gate facts for the cap comparison in BeginBlock and EndBlock, path-sensitive window rule (every feasible path to the re-pricing call carries height mod period == 1 and never-priced or 12 ≤ header hour ≤ 14 and header gap > 3 h), provenance of the minted, burned and counted amounts",
+      "The 350·p^¼ formula, the −10 % rule and the recovery steps are arithmetic and NOT decided. Decides that the cap is 10^10 BIP, that re-pricing, reward reads and emission advances happen only below the cap and the reward is zeroed at it, that the reward is re-priced only inside the height/hour/3-hour window measured on the block header's time, and that each block advances the emission counter by the state's per-block value, burns the positive withheld difference to the zero address and reports reward-plus-burn as minted base-coin volume.",
+      TRUST, "DESIGN.md §4 C28")
+
 PENDING = "check not built yet in this round; see DESIGN.md §4 for the planned static rule"
 for p in ["C%02d" % i for i in range(1, 30)]:
     if p not in CLAIMS and p != "C12":
